@@ -78,6 +78,19 @@ pub fn new_engine(log: &Log) -> Engine {
         l.lock().unwrap().push(s);
         SteelVal::Void
     });
+    // (depth=? a b): two (#%verif-depth) observations are in the same space class: the sums of
+    // frames and stack values differ by a bounded amount (phase of an unrolled loop body), not by
+    // an amount that grows with the iteration count
+    e.register_fn("depth=?", move |a: SteelVal, b: SteelVal| -> bool {
+        fn total(v: &SteelVal) -> i64 {
+            match v {
+                SteelVal::IntV(i) => *i as i64,
+                SteelVal::ListV(l) => l.iter().map(total).sum(),
+                _ => i64::MAX / 4,
+            }
+        }
+        (total(&a) - total(&b)).abs() < 64
+    });
     // identity that the optimiser cannot see through (defeats constant folding)
     e.register_fn("opaque", move |v: SteelVal| -> SteelVal { v });
     e
@@ -125,6 +138,19 @@ pub fn run_op(e: &mut Engine, log: &Log, host: &mut HostState, op: &str) -> Got 
         } else if let Some(name) = op.strip_prefix("hold:") {
             let v = e.extract_value(&name.replace("@@", &host.uniq)).map_err(|x| x.to_string())?;
             host.held.push(v);
+            Ok(None)
+        } else if op == "heap_stats" {
+            // emits, for the value list and the vector list: slots, and whether the accounted free
+            // count equals the number of slots actually marked free
+            let st = e.verif_heap_stats();
+            let mut l = log.lock().unwrap();
+            for (slots, alloc_count, free) in st {
+                l.push(format!("slots<={}", if slots <= 1_500_000 { "bound" } else { "EXCEEDED" }));
+                l.push(format!("accounting:{}", if alloc_count == free { "exact".to_string() } else { format!("alloc_count={alloc_count} free={free}") }));
+            }
+            Ok(Some(format!("{:?}", st)))
+        } else if op == "unroot_all" {
+            host.rooted.clear();
             Ok(None)
         } else if let Some(name) = op.strip_prefix("root:") {
             // the embedder keeps the value alive through the rooting API only
